@@ -334,7 +334,16 @@ def actual(items, w2c2, workdir, cc="gcc", cflags=("-O1",), batch=24, w2c2_opts=
     """Translate, compile and run.  Returns (obs dict keyed (id,k), problems list).
     problems: [(kind, item ids, text)] for translate/compile/run failures (observations in
     their own right for C10/C11; machinery trouble otherwise)."""
-    batches = [items[j:j + batch] for j in range(0, len(items), batch)]
+    # a batch is one test program: at most `batch` modules and about 2500 calls (its harness is one C file)
+    batches, cur, ops = [], [], 0
+    for it in items:
+        if cur and (len(cur) >= batch or ops + len(it["script"]) > 2500):
+            batches.append(cur)
+            cur, ops = [], 0
+        cur.append(it)
+        ops += len(it["script"])
+    if cur:
+        batches.append(cur)
     problems = []
 
     gnuld = "gnu-ld" in (w2c2_opts or ())
@@ -483,6 +492,9 @@ def clean_prefix(item, exp):
     n = 0
     for k in range(1, len(item["script"]) + 1):
         r = exp.get((item["id"], k))
+        if r is not None and r["status"] == "invalid":
+            # WasmValid.tla rejects the module: whoever generated the scenario is wrong, not the code under test
+            raise MachineryError("scenario %s uses an invalid module (%s)" % (item["id"], r["trap"]))
         if r is None or r["status"] not in ("done", "returned", "trapped"):
             break
         n = k
@@ -523,11 +535,15 @@ def replay(verdict, items, builds, sigfn=None, w2c2_flags=("-O1",), workdir=None
         w2c2 = build_w2c2(os.path.join(wd, "w2c2bin"), flags=w2c2_flags)
         compared = 0
         nontrivial = set()
-        for b in builds:
-            act, problems = actual([dict(i) for i in usable], w2c2, os.path.join(wd, "run-" + b["name"]),
-                                   cc=b.get("cc", "gcc"), cflags=b.get("cflags", ("-O1",)),
-                                   extra_defs=b.get("defs", ()), w2c2_opts=b.get("w2c2_opts", ()),
-                                   extra_srcs=b.get("extra_srcs", ()), batch=b.get("batch", 24), localize=b.get("localize", True))
+        def build_one(b):
+            return actual([dict(i) for i in usable], w2c2, os.path.join(wd, "run-" + b["name"]),
+                          cc=b.get("cc", "gcc"), cflags=b.get("cflags", ("-O1",)),
+                          extra_defs=b.get("defs", ()), w2c2_opts=b.get("w2c2_opts", ()),
+                          extra_srcs=b.get("extra_srcs", ()), batch=b.get("batch", 24), localize=b.get("localize", True))
+        # a build configuration is only as parallel as it has batches: run several configurations side by side
+        nb = max(1, (len(usable) + 23) // 24, sum(len(i["script"]) for i in usable) // 2500)
+        results = pmap(build_one, builds, jobs=max(1, min(len(builds), NCPU // min(nb, NCPU) + 1)))
+        for b, (act, problems) in zip(builds, results):
             for kind, ids, text in problems:
                 verdict.deviation("%s:%s" % (kind, b["name"]), {"items": ids[:5], "text": text, "build": b["name"]})
             for it in usable:
